@@ -10,7 +10,7 @@ import chk_c08
 import irx_common
 import vlib
 
-ASSUME = chk_c08.ASSUME[:3] + ["two runs per path; interleavings with other generator instances reduce to (b) because instances share no state except function-local statics",
+ASSUME = chk_c08.ASSUME[:3] + [chk_c08.BB_ASSUME, "two runs per path; interleavings with other generator instances reduce to (b) because instances share no state except function-local statics",
                                "reset / re-initialisation: see C09 (same harness family, real decay0_generator.cc)"]
 
 
@@ -23,7 +23,16 @@ def run(tier, seed):
     agg = vlib.irx_aggregate(res)
     witness_ok = any(x.get("type") == "assert_fail" and "WITNESS" in x.get("what", "") for x in wit["records"])
     samples, n = irx_common.collect("C07", wd, rep, keys, res)
-    return irx_common.finish("C07", tier, seed, t0, rep, agg, samples, witness_ok, {"functions": ["bxdecay0::" + u for u in chk_c08.UNITS], "runs_per_path": 2}, ASSUME)
+    # the primary double-beta routine: indeterminate left-overs of earlier shots
+    wd2, jobs2, res2 = chk_c08.build_and_run_bb("C07", tier)
+    wit2, res2 = res2[-1], res2[:-1]
+    witness_ok = witness_ok and any(x.get("type") == "assert_fail" and "WITNESS" in x.get("what", "") for x in wit2["records"])
+    s2, n2 = irx_common.collect("C07", wd2, rep, [j[0] for j in jobs2[:-1]], res2)
+    agg2 = vlib.irx_aggregate(res2)
+    for k in agg:
+        agg[k] = agg[k] + agg2[k]
+    samples = (samples + s2)[:6]
+    return irx_common.finish("C07", tier, seed, t0, rep, agg, samples, witness_ok, {"functions": ["bxdecay0::" + u for u in chk_c08.UNITS] + ["bxdecay0::decay0_bb"], "runs_per_path": 2, "bb_modules": len(jobs2) - 1}, ASSUME)
 
 
 def replay(path):
